@@ -53,6 +53,26 @@ class Inst:
             t.extend(self.pos); t.extend(self.up)
         return "I " + " ".join(str(x) for x in t)
 
+    @staticmethod
+    def parse(line):
+        """inverse of line()"""
+        t = [int(x) for x in line.split()[1:]]
+        I = Inst(); k = 0
+        (I.nvars, I.nbase, I.init, I.initval, I.slack, I.rubkind, I.domkind, I.usevalue, I.ncoord, I.orderkind) = t[:10]; k = 10
+        I.order = t[k:k + I.nvars]; k += I.nvars
+        n = t[k]; k += 1
+        I.trans = [tuple(t[k + 5 * i:k + 5 * i + 5]) for i in range(n)]; k += 5 * n
+        n = t[k]; k += 1
+        I.notimp = [tuple(t[k + 2 * i:k + 2 * i + 2]) for i in range(n)]; k += 2 * n
+        if I.rubkind == 1: I.rub = t[k:k + I.nbase]; k += I.nbase
+        if I.domkind == 1:
+            I.key = t[k:k + I.nbase]; k += I.nbase
+            I.coords = [t[k + I.ncoord * i:k + I.ncoord * (i + 1)] for i in range(I.nbase)]; k += I.ncoord * I.nbase
+        if I.orderkind == 1:
+            I.pos = t[k:k + I.nbase]; k += I.nbase; I.up = t[k:k + I.nbase]; k += I.nbase
+        assert k == len(t), "trailing tokens in instance line"
+        return I
+
     # ---- python-side semantics of the BASE system (used only to build admissible rub / dominance tables
     #      and witness solutions for the generators; the property oracles are the extracted Coq specs)
     def rows(self, x, b):
